@@ -36,6 +36,8 @@ type session struct {
 	after  map[int][]int64
 	att    int
 	onRel  func(conn, i int)
+	onDial func()
+	onStall func(conn int)
 }
 
 var (
@@ -50,6 +52,9 @@ func dial(ctx context.Context, address string) (net.Conn, error) {
 		return nil, fmt.Errorf("nmemx: no session %q", address)
 	}
 	s := v.(*session)
+	if ctx.Err() != nil {
+		return nil, &net.OpError{Op: "dial", Net: "nmemx", Err: errors.New("operation was canceled")}
+	}
 	s.mu.Lock()
 	at := s.sc.Attempts[s.att]
 	if at.DialRefuse {
@@ -60,8 +65,12 @@ func dial(ctx context.Context, address string) (net.Conn, error) {
 	idx := s.master.NewConnLog()
 	s.srv = append(s.srv, sv)
 	s.cli = append(s.cli, cl)
+	f := s.onDial
 	s.mu.Unlock()
 	go s.master.Serve(idx, sv)
+	if f != nil {
+		f() // stop point "the transport connection exists, the driver has not used it yet"
+	}
 	return cl, nil
 }
 
@@ -124,6 +133,14 @@ func Run(sc *e1.Scenario) Outcome {
 		}
 		if sc.Pacing == "lock" && sv != nil {
 			sv.WaitPeerIdle()
+		}
+	}
+	s.master.OnStall = func(ci int) {
+		s.mu.Lock()
+		f := s.onStall
+		s.mu.Unlock()
+		if f != nil {
+			f(ci)
 		}
 	}
 	sessions.Store(id, s)
@@ -231,6 +248,35 @@ func Run(sc *e1.Scenario) Outcome {
 		if at.Cancel != nil {
 			tr := *at.Cancel
 			switch tr.Kind {
+			case "start":
+				fire()
+			case "dialed":
+				s.mu.Lock()
+				s.onDial = fire
+				s.mu.Unlock()
+			case "stalled":
+				s.mu.Lock()
+				s.onStall = func(ci int) {
+					if ci != nconn {
+						return
+					}
+					go func() {
+						// the client is waiting for the master when it is blocked
+						// reading an empty pipe (in-memory network); over TCP the
+						// cancel simply lands a little earlier or later
+						s.mu.Lock()
+						var sv *nmem.Conn
+						if ci < len(s.srv) {
+							sv = s.srv[ci]
+						}
+						s.mu.Unlock()
+						if sv != nil {
+							sv.WaitPeerIdle()
+						}
+						fire()
+					}()
+				}
+				s.mu.Unlock()
 			case "released":
 				s.mu.Lock()
 				s.onRel = func(ci, j int) {
@@ -282,7 +328,7 @@ func Run(sc *e1.Scenario) Outcome {
 		}
 		close(stopPoll)
 		s.mu.Lock()
-		s.onRel = nil
+		s.onRel, s.onDial, s.onStall = nil, nil, nil
 		s.mu.Unlock()
 		if out.Blocked {
 			fmt.Fprintf(&key, "[a%d BLOCKED ret=%v/%d] DEADLOCK", i, returned.Load(), nerr.Load())
@@ -319,7 +365,7 @@ func libGoroutines() bool {
 	buf := make([]byte, 1<<16)
 	n := runtime.Stack(buf, true)
 	for _, g := range strings.Split(string(buf[:n]), "\n\n") {
-		if strings.Contains(g, "gobinlog.(*slaveConnection)") || strings.Contains(g, "gobinlog.(*Streamer)") {
+		if strings.Contains(g, "gobinlog.(*slaveConnection)") || strings.Contains(g, "gobinlog.(*Streamer)") || strings.Contains(g, "mysql.(*mysqlConn).startWatcher") {
 			if !strings.Contains(g, "e1n.Run") {
 				return true
 			}
